@@ -80,7 +80,7 @@ Section Facts.
       step LWalkerDone (mk [] false w m mr pd qd) (mk [] true w m mr pd qd)
   | S_walker_cancel p q w m mr pd qd : sel = true ->
       gcancel (mk (p :: q) false w m mr pd qd) = true ->
-      step LWalkerCancel (mk (p :: q) false w m mr pd qd) (mk (p :: q) true w m mr pd qd)
+      step LWalkerCancel (mk (p :: q) false w m mr pd qd) (mk q false w m mr pd qd)
   | S_paths_cancel qu w m mr qd :
       step LPathsCancel (mk qu true w m mr false qd) (mk qu true w m mr true qd)
   | S_worker_exit l1 l2 qu wd m mr qd :
@@ -184,7 +184,8 @@ Section Facts.
     - exists []. split; auto. perm_count.
     - exists [TFile f]. split; [perm_count|]. rewrite orb_true_r. discriminate.
     - exists []. split; auto. perm_count.
-    - exists []. split; auto. perm_count.
+    - (* the walker drops the path at hand: only once the group context is canceled *)
+      exists (ptoks p). split; [perm_count|]. intros G. rewrite G in H0. discriminate.
     - exists []. split; auto. perm_count.
     - exists []. split; auto. perm_count.
     - exists [TFile f]. split; [perm_count|]. norm. rewrite H0. discriminate.
